@@ -17,7 +17,7 @@ RULE = ("random trunk/heads programs (1-3 trunk leaves -> 1-3 mutually independe
         ">= 2 losses and >= 1 task parameter; distinct = distinct case descriptions")
 ASSUMPTIONS = ["reference = torch.autograd on a twin graph: row i = VJP of features w.r.t. shared parameters with cotangent "
                "d loss_i / d features computed on a cut twin (heads rebuilt on detached features)"]
-N = {"quick": 1400, "thorough": 150000}
+N = {"quick": 1400, "thorough": 600000}
 
 
 def shards(tier, seed):
